@@ -104,6 +104,23 @@ def _chunk(items):
                                 exp = v['prop'] + between + kw + after
                                 if g != exp:
                                     bad.append(('keyword', dict(case, abbr=ab, expected=exp, actual=g)))
+                # function keywords typed by their name: the whole call of the table is printed
+                if v['kind'] == 'prop' and re.fullmatch(r'[A-Za-z]+', key) and not marking:
+                    names = [f['name'].lower() for f in v['fnkeywords']] + [k.lower() for k in v['keywords']]
+                    for f in v['fnkeywords']:
+                        if names.count(f['name'].lower()) != 1 or '(' in f['out'][len(f['name']) + 1:] or "'" in f['out'] or '"' in f['out']:
+                            continue          # the same name listed twice, nested calls, quoted arguments: not judged
+                        for form in (f['name'], f['name'].upper()):
+                            ab = key + ':' + form
+                            try:
+                                g = ex(ab)
+                                n += 1
+                            except Exception as e:
+                                bad.append(('expand raised', dict(case, abbr=ab, exception=type(e).__name__)))
+                                continue
+                            exp = v['prop'] + between + f['out'] + after
+                            if _norm(g) != _norm(exp):
+                                bad.append(('keyword (function)', dict(case, abbr=ab, expected=exp, actual=g)))
                 # scopes
                 if not marking and syn == 'css' and key != 'lg':      # 'lg' is the hard-wired gradient shortcut, resolved before table and scope
                     try:
